@@ -223,12 +223,20 @@ func (r RandomChoiceSelection) Select(pool UpstreamPool, _ *http.Request, _ http
 	if k > len(pool) {
 		k = len(pool)
 	}
-	choices := make([]*Upstream, k)
-	for i, upstream := range pool {
+	// reservoir sampling over the available upstreams only: count
+	// the available ones seen so far, not the position in the pool
+	choices := make([]*Upstream, 0, k)
+	var seen int
+	for _, upstream := range pool {
 		if !upstream.Available() {
 			continue
 		}
-		j := weakrand.Intn(i + 1) //nolint:gosec
+		seen++
+		if len(choices) < k {
+			choices = append(choices, upstream)
+			continue
+		}
+		j := weakrand.Intn(seen) //nolint:gosec
 		if j < k {
 			choices[j] = upstream
 		}
